@@ -5,12 +5,18 @@
 package main
 
 import (
+	"bytes"
+	"context"
 	"encoding/json"
 	"flag"
 	"fmt"
+	"os"
+	"os/exec"
+	"path/filepath"
 	"runtime"
 	"strconv"
 	"strings"
+	"time"
 
 	"verif/harness/hx"
 
@@ -435,7 +441,7 @@ func coqOp(o opDesc, kind string) string {
 }
 func coqRow(r rowT) string { return fmt.Sprintf("mkrow %d %s %d", r.ver, hx.CoqBool(r.stale), r.execs) }
 
-func runHist(run *hx.Run, d histDesc) {
+func runHist(run sink, d histDesc) {
 	// drop operations the harness must not execute: a cycle makes the Go code recurse forever
 	mir := newMirror(d.Nodes)
 	ls := buildLive(d.Nodes)
@@ -632,38 +638,190 @@ func runHist(run *hx.Run, d histDesc) {
 	run.Add(hx.Case{Kind: "hist", Desc: d, Coq: b.String(), Nontriv: execReads >= 1 && edits >= 1, Key: string(key), GoFail: fail})
 }
 
-func main() {
-	run := hx.ParseFlags("C11", "Check.C11")
-	for _, in := range run.Inputs() {
-		if in.Kind == "lazy" {
-			var d lazyDesc
-			if err := json.Unmarshal(in.Raw, &d); err == nil && len(d.Init) == len(lazyParams) {
-				runLazy(run, d)
-			}
-			continue
+// where a history's case and its distribution counters go: the run itself, or the collector of a child process
+type sink interface {
+	Add(c hx.Case)
+	Count(key string)
+}
+
+type job struct {
+	Kind string          `json:"kind"` // "hist" | "lazy"
+	Raw  json.RawMessage `json:"raw"`
+}
+
+func runJob(out sink, j job) {
+	if j.Kind == "lazy" {
+		var d lazyDesc
+		if err := json.Unmarshal(j.Raw, &d); err == nil && len(d.Init) == len(lazyParams) {
+			runLazy(out, d)
 		}
-		var d histDesc
-		if err := json.Unmarshal(in.Raw, &d); err == nil {
-			runHist(run, d)
-		}
-	}
-	if run.Replay != "" {
-		run.Finish()
 		return
 	}
-	for _, d := range fixedCases() {
-		runHist(run, d)
+	var d histDesc
+	if err := json.Unmarshal(j.Raw, &d); err == nil {
+		runHist(out, d)
 	}
-	r := hx.NewRng(run.Seed)
-	for i := 0; i < run.N; i++ {
-		runHist(run, genHist(r, run.Tier == "thorough"))
+}
+
+// ---- child processes: the implementation runs in a child (one per batch, with a deadline), so that a history on
+// which the real code brings the process down (unbounded recursion: a fatal stack overflow cannot be recovered) or
+// hangs becomes a failing case with a concrete replay instead of a dead harness ----
+type xcase struct {
+	Kind    string          `json:"kind"`
+	Desc    json.RawMessage `json:"desc"`
+	Coq     string          `json:"coq"`
+	Nontriv bool            `json:"nontriv"`
+	Key     string          `json:"key"`
+	GoFail  string          `json:"gofail"`
+	FailKey string          `json:"failkey"`
+}
+type jobResult struct {
+	Cases  []xcase  `json:"cases"`
+	Counts []string `json:"counts"`
+}
+type collector struct{ res jobResult }
+
+func (c *collector) Add(k hx.Case) {
+	desc, _ := json.Marshal(k.Desc)
+	c.res.Cases = append(c.res.Cases, xcase{k.Kind, desc, k.Coq, k.Nontriv, k.Key, k.GoFail, k.FailKey})
+}
+func (c *collector) Count(key string) { c.res.Counts = append(c.res.Counts, key) }
+
+// child: -c11child <jobs.json> <results.jsonl>; one line per completed job, flushed before the next one starts
+func childMain(jobsFile, outFile string) {
+	raw, err := os.ReadFile(jobsFile)
+	if err != nil {
+		os.Exit(3)
 	}
-	// processors that skip inputs (see lazy.go)
-	for _, d := range fixedLazy() {
-		runLazy(run, d)
+	var jobs []job
+	if json.Unmarshal(raw, &jobs) != nil {
+		os.Exit(3)
 	}
-	for i := 0; i < run.N/5; i++ {
-		runLazy(run, genLazy(r))
+	f, err := os.Create(outFile)
+	if err != nil {
+		os.Exit(3)
 	}
+	defer f.Close()
+	for _, j := range jobs {
+		c := &collector{}
+		runJob(c, j)
+		line, _ := json.Marshal(c.res)
+		f.Write(append(line, '\n'))
+		f.Sync()
+	}
+}
+
+const batchSize = 40
+
+func batchDeadline() time.Duration {
+	if s := os.Getenv("VERIF_C11_BATCH_SECONDS"); s != "" {
+		if n, err := strconv.Atoi(s); err == nil && n > 0 {
+			return time.Duration(n) * time.Second
+		}
+	}
+	return 300 * time.Second
+}
+
+func runJobs(run *hx.Run, jobs []job) {
+	exe, err := os.Executable()
+	if err != nil {
+		for _, j := range jobs { // no way to start a child: run in this process
+			runJob(run, j)
+		}
+		return
+	}
+	dir, _ := os.MkdirTemp("", "c11-batch-")
+	defer os.RemoveAll(dir)
+	for start := 0; start < len(jobs); {
+		end := start + batchSize
+		if end > len(jobs) {
+			end = len(jobs)
+		}
+		batch := jobs[start:end]
+		jf, of := filepath.Join(dir, "jobs.json"), filepath.Join(dir, "out.jsonl")
+		raw, _ := json.Marshal(batch)
+		os.WriteFile(jf, raw, 0o644)
+		os.Remove(of)
+		ctx, cancel := context.WithTimeout(context.Background(), batchDeadline())
+		cmd := exec.CommandContext(ctx, exe, "-c11child", jf, of)
+		var stderr bytes.Buffer
+		cmd.Stderr = &stderr
+		runErr := cmd.Run()
+		timedOut := ctx.Err() != nil
+		cancel()
+		done := 0
+		if data, err := os.ReadFile(of); err == nil {
+			for _, line := range bytes.Split(data, []byte("\n")) {
+				var r jobResult
+				if len(line) == 0 || json.Unmarshal(line, &r) != nil {
+					continue // (a torn last line belongs to the job that did not finish)
+				}
+				for _, c := range r.Cases {
+					run.Add(hx.Case{Kind: c.Kind, Desc: c.Desc, Coq: c.Coq, Nontriv: c.Nontriv, Key: c.Key, GoFail: c.GoFail, FailKey: c.FailKey})
+				}
+				for _, k := range r.Counts {
+					run.Count(k)
+				}
+				done++
+			}
+		}
+		start += done
+		if done < len(batch) {
+			// the job after the last completed one took the child down (or ran into the deadline)
+			j := batch[done]
+			why := "fatal runtime error"
+			if timedOut {
+				why = "no answer within the deadline"
+			}
+			msg := stderr.String()
+			if i := strings.Index(msg, "\n\n"); i > 0 {
+				msg = msg[:i] // first paragraph of the Go runtime's report
+			}
+			if len(msg) > 600 {
+				msg = msg[:600]
+			}
+			run.Count("harness-child-down")
+			run.Add(hx.Case{Kind: j.Kind, Desc: j.Raw, Coq: "CHist [] [] [] []", Nontriv: true, Key: string(j.Raw),
+				GoFail: fmt.Sprintf("the implementation brought the harness process down on this history (%s; %v): %s", why, runErr, strings.TrimSpace(msg))})
+			start++
+		}
+	}
+}
+
+func main() {
+	if len(os.Args) == 4 && os.Args[1] == "-c11child" {
+		childMain(os.Args[2], os.Args[3])
+		return
+	}
+	run := hx.ParseFlags("C11", "Check.C11")
+	var jobs []job
+	for _, in := range run.Inputs() {
+		k := "hist"
+		if in.Kind == "lazy" {
+			k = "lazy"
+		}
+		jobs = append(jobs, job{Kind: k, Raw: in.Raw})
+	}
+	if run.Replay == "" {
+		add := func(kind string, d interface{}) {
+			raw, _ := json.Marshal(d)
+			jobs = append(jobs, job{Kind: kind, Raw: raw})
+		}
+		for _, d := range fixedCases() {
+			add("hist", d)
+		}
+		r := hx.NewRng(run.Seed)
+		for i := 0; i < run.N; i++ {
+			add("hist", genHist(r, run.Tier == "thorough"))
+		}
+		// processors that skip inputs (see lazy.go)
+		for _, d := range fixedLazy() {
+			add("lazy", d)
+		}
+		for i := 0; i < run.N/5; i++ {
+			add("lazy", genLazy(r))
+		}
+	}
+	runJobs(run, jobs)
 	run.Finish()
 }
